@@ -107,11 +107,24 @@ def follows_rules(proto, ext_prefixes):
         return False
     if has("IsTimeStampInvalid") and not (has("TimeStamp") and is_int("IsTimeStampInvalid", 0, 1)):
         return False
+    if len(set(names)) != len(names):          # the same attribute (namespace AND name) twice
+        return False
     for p in proto:
         n, t = p.split("/")
         k = t.split(":")
         if k[0] in ("I", "SI") and int(k[1]) > int(k[2]):
             return False
+        if k[0] in ("S", "D"):                 # float limits: numbers with minimum <= maximum
+            import struct
+            vals = []
+            for h in k[1:3]:
+                if h != "-":
+                    v = struct.unpack(">f" if k[0] == "S" else ">d", bytes.fromhex(h))[0]
+                    if v != v:
+                        return False
+                    vals.append(v)
+            if len(vals) == 2 and vals[0] > vals[1]:
+                return False
         if n.startswith("U:"):
             _, ns, nm = n.split(":")
             if not valid_name(unhs(ns)) or not valid_name(unhs(nm)) or unhs(ns) not in ext_prefixes:
@@ -223,9 +236,18 @@ def gather_files(rep, rng, tier, impl):
             ["x~S/-9223372036854775808/9223372036854775807/3f50624dd2f1a9fc/0000000000000000", "y~S/-5/5/bff0000000000000/4024000000000000", "z~S/0/0/3ff0000000000000/0000000000000000",
              "row~I/-9223372036854775808/9223372036854775807", "col~I/7/7"],
         ]
+        # attributes of extensions that share a LOCAL name: with each other (two namespaces) and with a standard
+        # attribute; the reader reports them as distinct, the copy must be accepted and keep them apart
+        hn = lambda t: t.encode().hex()
+        shared = [
+            ["x~D/-/-", "y~D/-/-", "z~D/-/-", "u.%s.%s~I/0/10" % (hn("ext1"), hn("quality")), "u.%s.%s~I/0/255" % (hn("ext2"), hn("quality"))],
+            ["x~D/-/-", "y~D/-/-", "z~D/-/-", "in~F/-/-", "u.%s.%s~I/0/100" % (hn("ext1"), hn("intensity"))],
+            ["u.%s.%s~I/0/7" % (hn("ext2"), hn("rowIndex")), "x~D/-/-", "y~D/-/-", "z~D/-/-", "row~I/0/9", "u.%s.%s~S/0/7/3ff0000000000000/0000000000000000" % (hn("ext1"), hn("rowIndex"))],
+        ]
+        ext_cmds = ["X", hx("ext1"), hx("http://a.example/1"), "X", hx("ext2"), hx("http://a.example/2")]
         lines = []
-        for recs in one_sided:
-            cmds = ["G", hx("copy-guid"), "PC", hx("pc-guid"), str(len(recs))] + recs
+        for recs in one_sided + shared:
+            cmds = ["G", hx("copy-guid")] + (ext_cmds if recs in shared else []) + ["PC", hx("pc-guid"), str(len(recs))] + recs
             for k in range(3):
                 vals = []
                 for r in recs:
@@ -251,6 +273,37 @@ def gather_files(rep, rng, tier, impl):
                     files.append(("foreign-style-prototype", bytes.fromhex(dev.strip())))
                 else:
                     rep.cov.setdefault("foreign_style_programs_rejected", []).append(res[:80])
+        # shared local names on files the writer did NOT shape: the program uses placeholder names of the same
+        # length, the XML text is renamed afterwards (a foreign producer writes such names directly)
+        import re as _re
+        from props import xe as _xe
+        renames = [
+            (["x~D/-/-", "y~D/-/-", "z~D/-/-", "u.%s.%s~I/0/10" % (hn("ext1"), hn("quality")), "u.%s.%s~I/0/255" % (hn("ext2"), hn("qualitz"))],
+             [(b"ext2:qualitz", b"ext2:quality")]),
+            (["x~D/-/-", "y~D/-/-", "z~D/-/-", "in~F/-/-", "u.%s.%s~I/0/100" % (hn("ext1"), hn("intensitz"))],
+             [(b"ext1:intensitz", b"ext1:intensity")]),
+            (["u.%s.%s~I/0/7" % (hn("ext2"), hn("rowIndez")), "x~D/-/-", "y~D/-/-", "z~D/-/-", "row~I/0/9"],
+             [(b"ext2:rowIndez", b"ext2:rowIndex")]),
+        ]
+        lines = []
+        for recs, _ in renames:
+            cmds = ["G", hx("copy-guid")] + ext_cmds + ["PC", hx("pc-guid"), str(len(recs))] + recs
+            vals = []
+            for r in recs:
+                ty = r.split("~")[1]
+                vals.append("d3ff8000000000000" if ty.startswith("D") else "f3f000000" if ty.startswith("F") else "i3")
+            cmds += ["PP", str(len(vals))] + vals + ["PP", str(len(vals))] + vals + ["PE", "FIN"]
+            lines.append("METAWDEV " + " ".join(cmds))
+        for (recs, subs), o in zip(renames, core.run_cases(impl, lines)):
+            if " | " in o and o.split(" | ")[0].split(",")[-1] == "o":
+                base = bytes.fromhex(o.split(" | ", 1)[1].strip())
+                def edit(xml, subs=subs):
+                    for a, b in subs:
+                        xml = xml.replace(a, b)
+                    return xml
+                files.append(("foreign-style-shared-local-name", _xe.replace_xml(base, edit)))
+            else:
+                rep.cov.setdefault("foreign_style_programs_rejected", []).append(o.split(" | ")[0][:80])
         # the same idea on files the writer did NOT shape: take files whose float attributes declare both limits and
         # remove one of the two attributes from the XML text (a producer may omit either), reseal
         import re
